@@ -65,18 +65,22 @@ def call_add_signal(fr, stg, spec, opts, brange, ref, lo, hi, R=None):
     if spec['bp']['kind'] == 'array':
         Sf = opts['f_subsamples'] if opts.get('integrate_f_profile') else 1
         full_ok = (lo == 0 and hi == fr.fchans and Sf == 1)
-        try:
+        if full_ok:
             return fr.add_signal(path, tprof, fprof, bp, **kw)
-        except ValueError:
-            if full_ok:
-                raise
+        # bounded and/or frequency-integrated: the array convention the code documents is "one value per evaluated
+        # frequency" (restricted, sub-sampled grid). Offer that first -- a full-length array whose length happens to equal
+        # the restricted grid's would silently be read in the other convention -- and the full-length form on ValueError.
+        grid = (fs[lo:hi][:, None] + np.arange(Sf)[None, :] * fr.df / Sf).ravel()
+        try:
             if R is not None:
                 R.count('bp_array_restricted_form')
-            grid = (fs[lo:hi][:, None] + np.arange(Sf)[None, :] * fr.df / Sf).ravel()
-            bp2 = ref.bp(grid)
+            return fr.add_signal(path, tprof, fprof, ref.bp(grid), **kw)
+        except ValueError:
+            if len(grid) == fr.fchans:
+                raise
             # fresh library objects: the rejected attempt may already have advanced seeded generators
-            path, tprof, fprof, _ = rsig.lib_args(stg, spec, ts, np.append(ts, ts[-1] + fr.dt), fs, lo, hi, opts, ref)
-            return fr.add_signal(path, tprof, fprof, bp2, **kw)
+            path, tprof, fprof, bp = rsig.lib_args(stg, spec, ts, np.append(ts, ts[-1] + fr.dt), fs, lo, hi, opts, ref)
+            return fr.add_signal(path, tprof, fprof, bp, **kw)
     return fr.add_signal(path, tprof, fprof, bp, **kw)
 
 
